@@ -271,7 +271,14 @@ func tokenizeForSemantics(content string) []semanticToken {
 	inDirective := false
 	directiveType := ""
 	isPayee := false
+	// inHeader: between the date of a transaction header and its description;
+	// afterPipe: right after the "|" that separates payee and note. In both
+	// places the grammar allows only free text, whatever its first characters
+	// look like to the lexer.
+	inHeader := false
+	afterPipe := false
 	currentLine := -1
+	lineStart := 0
 
 	for {
 		tok := lexer.Next()
@@ -281,6 +288,10 @@ func tokenizeForSemantics(content string) []semanticToken {
 
 		if tok.Pos.Line != currentLine {
 			currentLine = tok.Pos.Line
+			lineStart = tok.Pos.Offset - byteOffsetOfColumn(content, tok.Pos)
+			inHeader = false
+			afterPipe = false
+			isPayee = false
 			if tok.Type == parser.TokenDirective {
 				inDirective = true
 				directiveType = tok.Value
@@ -288,10 +299,41 @@ func tokenizeForSemantics(content string) []semanticToken {
 				inDirective = false
 				directiveType = ""
 				isPayee = true
+				inHeader = true
 			} else if tok.Type != parser.TokenIndent && tok.Type != parser.TokenNewline {
 				inDirective = false
 				directiveType = ""
 			}
+		} else if inHeader {
+			switch tok.Type {
+			case parser.TokenEquals, parser.TokenDate, parser.TokenStatus, parser.TokenCode:
+			case parser.TokenNumber:
+				if len(tokens) > 0 && tokens[len(tokens)-1].tokenType == TokenTypeOperator {
+					tok = lexer.RescanAsDate(tok.Pos) // secondary date without year
+				} else {
+					tok = lexer.RescanAsText(tok.Pos)
+					inHeader = false
+				}
+			case parser.TokenLParen:
+				tok = lexer.RescanAsCode(tok.Pos)
+			case parser.TokenText, parser.TokenComment, parser.TokenNewline:
+				inHeader = false
+			case parser.TokenPipe:
+				inHeader = false
+				afterPipe = true
+			default:
+				tok = lexer.RescanAsText(tok.Pos)
+				inHeader = false
+			}
+		} else if afterPipe {
+			afterPipe = false
+			if tok.Type != parser.TokenText && tok.Type != parser.TokenComment && tok.Type != parser.TokenNewline {
+				tok = lexer.RescanAsText(tok.Pos)
+			}
+		} else if tok.Type == parser.TokenPipe {
+			afterPipe = true
+		} else if inDirective && directiveType == "include" && tok.Type != parser.TokenNewline && tok.Type != parser.TokenComment && tok.Type != parser.TokenText {
+			tok = lexer.RescanAsText(tok.Pos) // a path, not journal syntax
 		}
 
 		semType, ok := mapTokenType(tok.Type)
@@ -311,23 +353,31 @@ func tokenizeForSemantics(content string) []semanticToken {
 			isPayee = false
 		}
 
+		if tok.Pos.Offset < lineStart || tok.End.Offset > len(content) || tok.End.Offset < tok.Pos.Offset {
+			continue
+		}
+		// positions and lengths are in UTF-16 code units of the source text
+		line := uint32(tok.Pos.Line - 1)
+		col := uint32(lsputil.UTF16Len(content[lineStart:tok.Pos.Offset]))
+		raw := strings.TrimRight(content[tok.Pos.Offset:tok.End.Offset], " \t\r")
+
 		// Handle comments with tags - extract tag tokens
 		if tok.Type == parser.TokenComment {
-			tagTokens := extractTagTokensFromComment(tok)
+			tagTokens := extractTagTokensFromComment(tok.Value, line, col)
 			if len(tagTokens) > 0 {
 				tokens = append(tokens, tagTokens...)
 				continue
 			}
 		}
 
-		length := uint32(lsputil.UTF16Len(tok.Value))
-		if tok.Type == parser.TokenComment {
-			length++
+		length := uint32(lsputil.UTF16Len(raw))
+		if length == 0 {
+			continue
 		}
 
 		tokens = append(tokens, semanticToken{
-			line:      uint32(tok.Pos.Line - 1),
-			col:       uint32(tok.Pos.Column - 1),
+			line:      line,
+			col:       col,
 			length:    length,
 			tokenType: semType,
 			modifiers: modifiers,
@@ -337,15 +387,29 @@ func tokenizeForSemantics(content string) []semanticToken {
 	return tokens
 }
 
-func extractTagTokensFromComment(tok parser.Token) []semanticToken {
-	commentText := tok.Value
+// byteOffsetOfColumn returns how many bytes precede pos on its line (the
+// lexer counts columns in characters, the token array needs UTF-16 units).
+func byteOffsetOfColumn(content string, pos parser.Position) int {
+	start := pos.Offset
+	for start > 0 && content[start-1] != '\n' {
+		start--
+	}
+	return pos.Offset - start
+}
+
+// extractTagTokensFromComment returns tag-name and tag-value tokens for a
+// comment whose text (after the ";") is commentText and whose ";" stands at
+// UTF-16 column baseCol of line baseLine.
+func extractTagTokensFromComment(commentText string, baseLine, baseCol uint32) []semanticToken {
 	if !strings.Contains(commentText, ":") {
 		return nil
 	}
 
 	var tokens []semanticToken
-	baseLine := uint32(tok.Pos.Line - 1)
-	baseCol := uint32(tok.Pos.Column - 1)
+	// UTF-16 column of a byte offset inside the comment text (+1 for the semicolon)
+	colAt := func(byteOffset int) uint32 {
+		return baseCol + 1 + uint32(lsputil.UTF16Len(commentText[:byteOffset]))
+	}
 
 	parts := strings.Split(commentText, ",")
 	searchStart := 0
@@ -370,13 +434,10 @@ func extractTagTokensFromComment(tok parser.Token) []semanticToken {
 		tagStart += searchStart
 
 		// Tag name with colon: "name:"
-		tagNameWithColonLen := uint32(len(name) + 1)
-
-		// +1 to baseCol accounts for the semicolon that starts the comment
 		tokens = append(tokens, semanticToken{
 			line:      baseLine,
-			col:       baseCol + 1 + uint32(tagStart),
-			length:    tagNameWithColonLen,
+			col:       colAt(tagStart),
+			length:    uint32(lsputil.UTF16Len(name) + 1),
 			tokenType: TokenTypeTag,
 			modifiers: 0,
 		})
@@ -391,8 +452,8 @@ func extractTagTokensFromComment(tok parser.Token) []semanticToken {
 				if valueStart != -1 {
 					tokens = append(tokens, semanticToken{
 						line:      baseLine,
-						col:       baseCol + 1 + uint32(tagNameEnd+valueStart),
-						length:    uint32(len(value)),
+						col:       colAt(tagNameEnd + valueStart),
+						length:    uint32(lsputil.UTF16Len(value)),
 						tokenType: TokenTypeTagValue,
 						modifiers: 0,
 					})
